@@ -317,6 +317,10 @@ def program(draw, profile=None):
         for fr in framers:
             if fr["sched"] != "aux" or draw(st.integers(0, 3)) == 0:
                 continue
+            if draw(st.integers(0, 4)) == 0:
+                fr["frames"][0]["acts"].append({"kind": "done", "targets": ["me"],
+                                                "ctx": draw(st.sampled_from(["native", "recur"]))})
+                continue
             for i, f in enumerate(fr["frames"]):
                 if i + 1 < len(fr["frames"]):
                     f["acts"].append({"kind": "repeat", "n": draw(st.integers(0, 2))})
@@ -376,7 +380,7 @@ def suspend_scenario(draw):
         x = parent[x]
     main = draw(st.sampled_from(chain))
     t_start = draw(st.integers(1, 4))
-    dur = draw(st.sampled_from([0, 1, 2, 3, None, None]))
+    dur = draw(st.sampled_from(["immediate", 0, 1, 2, 3, None, None]))
     frames = {n: {"name": n, "over": parent[n], "acts": []} for n in order}
     for n in order:
         for ctx, path in (("enter", ".n.b"), ("recur", ".n.c"), ("exit", ".n.b")):
@@ -388,6 +392,10 @@ def suspend_scenario(draw):
     auxes = [{"name": "x0", "sched": "aux", "order": None, "period": None, "first": None, "frames": []}]
     xa = {"name": "xa", "over": None, "acts": [{"kind": "inc", "dst": ".n.c", "val": 1, "ctx": "recur"}]}
     if dur is None:
+        auxes[0]["frames"] = [xa]
+    elif dur == "immediate":
+        # completes within its very first run (done in the first frame's enter or recur acts)
+        xa["acts"].append({"kind": "done", "targets": ["me"], "ctx": draw(st.sampled_from(["native", "recur"]))})
         auxes[0]["frames"] = [xa]
     else:
         xa["acts"].append({"kind": "go", "far": "xb", "needs": [geq(t_start + dur)]})
@@ -424,10 +432,12 @@ def suspend_scenario(draw):
         other = draw(st.sampled_from(chain))
         t2 = draw(st.integers(1, 6))
         frames[other]["acts"].append({"kind": "aux", "name": "x1", "needs": [geq(t2)]})
-        d2 = draw(st.sampled_from([0, 1, 3, None]))
+        d2 = draw(st.sampled_from(["immediate", 0, 1, 3, None]))
         ya = {"name": "ya", "over": None, "acts": []}
         fr2 = {"name": "x1", "sched": "aux", "order": None, "period": None, "first": None, "frames": [ya]}
-        if d2 is not None:
+        if d2 == "immediate":
+            ya["acts"].append({"kind": "done", "targets": ["me"]})
+        elif d2 is not None:
             ya["acts"].append({"kind": "go", "far": "yb", "needs": [geq(t2 + d2)]})
             fr2["frames"].append({"name": "yb", "over": None, "acts": [{"kind": "done", "targets": ["me"]}]})
         auxes.append(fr2)
@@ -467,7 +477,16 @@ def guard_scenario(draw):
     nested = draw(st.booleans())
     tgt = "c" if nested else "b"
     a_acts = [obs("recur", ".n.c")]
-    a_acts.append({"kind": "go", "far": tgt, "needs": [] if draw(st.booleans()) else [rec(draw(st.integers(0, 2)))]})
+    nd = draw(st.sampled_from(["none", "rec", "updated", "changed"]))
+    if nd == "none":
+        nds = []
+    elif nd == "rec":
+        nds = [rec(draw(st.integers(0, 2)))]
+    else:
+        # .n.c is written every tick by the recur act above: the marker condition holds at every attempt, so a
+        # refused attempt must not run the transit (marker reset) action
+        nds = [{"kind": nd, "neg": False, "share": ".n.c", "frame": draw(st.sampled_from([None, "me"])), "by": None}]
+    a_acts.append({"kind": "go", "far": tgt, "needs": nds})
     if draw(st.booleans()):
         a_acts.append({"kind": "go", "far": "d", "needs": [rec(draw(st.integers(2, 5)))]})
     frames.append({"name": "a", "over": None, "acts": a_acts})
